@@ -460,6 +460,22 @@ def r15_erase_generics(src, log, names):
 
 
 
+def r16_mut_self(sig_text, body, log):
+    """`fn f(mut self, ..) { B }` -> `fn f(self, ..) { let mut self__ = self; B[self := self__] }`
+    (Verus does not support `mut self`; a by-value binding is only renamed)."""
+    if not re.search(r"\(\s*mut\s+self\b", sig_text):
+        return sig_text, body
+    sig_text = re.sub(r"\(\s*mut\s+self\b", "(self", sig_text, count=1)
+    toks = lex(body)
+    edits = [(tk.start, tk.end, "self__") for tk in toks if tk.kind == "ident" and tk.text == "self"]
+    body = _replace(body, edits)
+    first = body.index("{")
+    body = body[:first + 1] + " let mut self__ = self;" + body[first + 1:]
+    log["R16"] = log.get("R16", 0) + 1
+    return sig_text, body
+
+
+
 def r11_bytelits(src, log, table):
     """b"lit" -> blit_<n>()  ; table collects the generated external_body functions.
     `E == b"lit"` (slice equality against a literal) -> `bytes_eq(E, blit_<n>())`, where the shim
@@ -652,7 +668,7 @@ def r7_apply(src, log, map_kind="result"):
                     log.setdefault("R7.fired", []).append("ok")
                     changed = True
                     break
-                if meth not in ("map", "ok_or_else", "or_else", "then", "map_err", "ok_or", "and_then", "unwrap_or_else"):
+                if meth not in ("map", "ok_or_else", "or_else", "then", "then_some", "map_err", "ok_or", "and_then", "unwrap_or_else"):
                     continue
                 o = s[k + 2]; c = m[o]
                 ok_, ck_ = k + 2, s.index(c)
@@ -660,7 +676,7 @@ def r7_apply(src, log, map_kind="result"):
                 arg_a, arg_b = toks[o].end, toks[c].start
                 arg = src[arg_a:arg_b].strip()
                 is_closure = arg.startswith("|")
-                if meth != "ok_or" and not is_closure:
+                if meth not in ("ok_or", "then_some") and not is_closure:
                     continue
                 # receiver start: walk back to statement/expr boundary at same depth
                 j = k - 1
@@ -696,7 +712,18 @@ def r7_apply(src, log, map_kind="result"):
                     body = src[toks[s[bs]].start:toks[s[be]].end]
                 else:
                     params, body = "", arg
-                if meth == "map" and map_kind == "result":
+                end_tok = c
+                transposed = False
+                if meth == "map" and map_kind == "option" and ck_ + 4 < len(s) and toks[s[ck_ + 1]].text == "." \
+                        and toks[s[ck_ + 2]].text == "transpose" and toks[s[ck_ + 3]].text == "(" and toks[s[ck_ + 4]].text == ")":
+                    # Option::map(f).transpose():  Some(x) -> f(x).map(Some),  None -> Ok(None)
+                    end_tok = s[ck_ + 4]
+                    transposed = True
+                if meth == "then_some":
+                    new = "(if %s { Some(%s) } else { None })" % (recv, arg)
+                elif transposed:
+                    new = "(match %s { Some(%s) => (match %s { Ok(v__) => Ok(Some(v__)), Err(e__) => Err(e__) }), None => Ok(None) })" % (recv, params, body)
+                elif meth == "map" and map_kind == "result":
                     new = "(match %s { Ok(%s) => Ok(%s), Err(e__) => Err(e__) })" % (recv, params, body)
                 elif meth == "map" and map_kind == "option":
                     new = "(match %s { Some(%s) => Some(%s), None => None })" % (recv, params, body)
@@ -724,9 +751,9 @@ def r7_apply(src, log, map_kind="result"):
                     new = "(if %s { Some(%s) } else { None })" % (recv, body)
                 else:
                     continue
-                src = _replace(src, [(toks[s[r0]].start, toks[c].end, new)])
+                src = _replace(src, [(toks[s[r0]].start, toks[end_tok].end, new)])
                 log["R7"] = log.get("R7", 0) + 1
-                log.setdefault("R7.fired", []).append(meth)
+                log.setdefault("R7.fired", []).append(meth + ("+transpose" if transposed else ""))
                 changed = True
                 break
     return src
@@ -993,7 +1020,7 @@ def _gen_function(kv, sections, repo, res: UnitResult, variant) -> list:
             body = r7_apply(body, log, kv.get("r7map", "result"))
         elif r == "R11":
             body = r11_bytelits(body, log, res.bytelits)
-        elif r == "R13":
+        elif r in ("R13", "R16"):
             pass
         elif r == "R15":
             body = r15_erase_generics(body, log, set(kv.get("erase", "NsReader,BytesStart,BytesEnd").split(",")))
@@ -1007,6 +1034,8 @@ def _gen_function(kv, sections, repo, res: UnitResult, variant) -> list:
             body = RULES[r](body, log)
         else:
             raise ExtractError("template: unknown rule " + r)
+    if "R16" in rules:
+        sig_text, body = r16_mut_self(sig_text, body, log)
     # leftover constructs that no rule handled -> undecided, never a silent pass
     for t in lex(body):
         if t.kind == "ident" and t.text == "await":
